@@ -1,7 +1,7 @@
 SPECIFICATION Spec
 CONSTANTS
   Defects = {}
-  RegKeys = {"PM", "CP", "CT", "IA", "IB", "CE1", "CE2", "NIL"}
+  RegKeys = {"PM", "CP", "CT", "IA", "IB", "CE1", "CE2", "CI", "NIL"}
   RegSers = {"Proto", "CBOR", "JSON", "U1", "U2"}
   MaxRegs = 3
 INVARIANTS C25
